@@ -308,9 +308,9 @@ def gen_base(rng, small=False):
     if sub == 'vdw':
         return dict(sub=sub, args=[R(0, 7)] + [R(1, 3) for _ in range(rng.choice([2, 2, 3, 4]))])
     if sub == 'ptn':
-        return dict(sub=sub, args=[R(0, 30)])
+        return dict(sub=sub, args=[R(0, 10 if small else 30)])
     if sub == 'cpls':
-        return dict(sub=sub, args=[R(1, 3), rng.choice([1, 2, 4]), rng.choice([1, 2, 4])])
+        return dict(sub=sub, args=[R(1, 2 if small else 3), rng.choice([1, 2] if small else [1, 2, 4]), rng.choice([1, 2] if small else [1, 2, 4])])
     if sub in ('and', 'or'):
         return dict(sub=sub, args=[R(0, hi), R(0, hi)])
     return dict(sub=sub, args=[])
@@ -568,11 +568,23 @@ def cls_of(argv, stream, kind=None):
     return (','.join(opts) or 'plain') + ('|T:' + ','.join(sorted(set(trans))) if trans else '')
 
 
-def model_replies(ctx, argvs, name='pipeline', chunk=120, workers=8, extra=()):
+def _model_chunk(ctx, name, extra, argvs, limit):
+    """answers for a list of argv; a request the driver does not answer within the limit gets the reply ['slow']"""
+    try:
+        return ctx.model.batch([cmd(name, *(list(extra) + [a])) for a in argvs], timeout=limit)
+    except subprocess.TimeoutExpired:
+        if len(argvs) == 1:
+            return [[lib.Sym('slow')]]
+        h = len(argvs) // 2
+        sub = max(8, limit // 3)
+        return _model_chunk(ctx, name, extra, argvs[:h], sub) + _model_chunk(ctx, name, extra, argvs[h:], sub)
+
+
+def model_replies(ctx, argvs, name='pipeline', chunk=120, workers=8, extra=(), limit=45):
     """the driver's answers, in order; the requests are spread over several driver processes"""
     t0 = time.time()
     chunks = [argvs[i:i + chunk] for i in range(0, len(argvs), chunk)]
-    res = clirun.parallel([(lambda c=c: ctx.model.batch([cmd(name, *(list(extra) + [a])) for a in c], timeout=300)) for c in chunks], workers=workers)
+    res = clirun.parallel([(lambda c=c: _model_chunk(ctx, name, extra, c, limit)) for c in chunks], workers=workers)
     reps = [r for part in res for r in part]
     return reps, time.time() - t0
 
@@ -590,7 +602,10 @@ def tool_agrees(m, r):
 
 def run_pipeline(ctx):
     cnfgen = lib.import_impl()
-    rng = ctx.rng
+    # a generator of its own, derived from the seed of the run: the stream is the same whether it is run alone
+    # (tools/run_pipeline_stream.py) or after the other streams of C17
+    import random
+    rng = random.Random(ctx.seed * 1000003 + 17)
     quick = ctx.tier == 'quick'
     t_start = time.time()
     cases = []          # dict(stream, argv, case|None, kind)
@@ -684,6 +699,10 @@ def run_pipeline(ctx):
         ctx.tally('pipeline chain length', sum(1 for a in argv if a == '-T'))
         if stream == 'malformed':
             ctx.tally('pipeline malformed kind', cs['kind'])
+        if m[0] == 'slow':
+            ctx.tally('pipeline skipped', 'model slower than the limit')
+            ctx.note('pipeline: the extracted model did not answer within the limit on %r' % (argv,))
+            continue
         if m[0] == 'outside':
             ctx.count('pipeline-' + stream, tuple(argv), nontrivial=False)
             if cs['case'] is not None and not (cs.get('verbose') and cs['case'].get('graph')):
